@@ -654,6 +654,45 @@ def iterator_observations(col, L, prog, T, history, case):
     finally:
         it.close()
         anim.close()
+    # an iterator whose spec names no method follows the method that is effective when each frame is rendered:
+    # set / unset on the instance, then set / unset on its class, between construction and the later next() calls
+    kind_of = lambda v: "whole" if v == "anim" else v           # noqa: E731  (still frames: ANIM renders as WHOLE)
+    other = "whole" if kind_of(eff) == "lines" else "lines"
+    anim = T.nodes[n].from_file(_FILES["gif"], width=1, height=2)
+    it = L.common.ImageIterator(anim, -1, "1.1", False)
+    steps = [("nothing yet", None, kind_of(eff)),
+             (f"instance.set_render_method({other!r})", lambda: anim.set_render_method(other), other),
+             ("instance.set_render_method(None)", lambda: anim.set_render_method(None), kind_of(eff)),
+             (f"class {n}.set_render_method({other!r})", lambda: T.nodes[n].set_render_method(other), other),
+             (f"class {n}.set_render_method(None)", lambda: T.nodes[n].set_render_method(None), None)]
+    had_own = n in m.ov["rm"]
+    own = m.ov["rm"].get(n)
+    try:
+        for what, act, want in steps:
+            if act:
+                act()
+            if want is None:                   # after the class-level unset the class follows its ancestors again
+                if had_own:
+                    m.ov["rm"].pop(n)
+                want = kind_of(m.eff("rm", n))
+            frame = next(it)
+            col.count()
+            col.inc("renders")
+            col.inc("iterator_frames")
+            got = framing(frame, root)
+            if got[0] != want:
+                col.violation(dict(clause="iterator-follows-effective-method", root=root, step=what.split("(")[0]),
+                              f"{root}/{prog['shape']}: after {history}: ImageIterator(image of {n}, -1, '1.1') "
+                              f"constructed, then {what}: the next frame is framed as {got}, the effective method is "
+                              f"{want!r} now", case)
+                break
+    finally:
+        it.close()
+        anim.close()
+        # put the class back into the state under observation
+        T.nodes[n].set_render_method(own if had_own else None)
+        if had_own:
+            m.ov["rm"][n] = own
 
 
 # ------------------------------------------------------------------------------------------ alphabets
